@@ -106,6 +106,8 @@ def units(tier):
         _as_c15(c01.ReadFrame(), 'C15.whole-frames-only'),
         _as_c15(c01.SizeCheck(), 'C15.size-check'),
     ]
+    from . import c11
+    us.append(_as_c15(c11.RunLoop(), 'C15.run-loop.propagates'))   # the stop of the server becomes an exception of read_packet: _run must let it out (no swallow, no spin)
     for modname in ('c14', 'c09'):
         try:
             m = __import__('contracts.' + modname, fromlist=['c15_units'])
